@@ -57,7 +57,9 @@ RULE = ('deterministic core: every criterion of the grammar (numbers, numeric te
         'Exotic numeric spellings as TEXT cells (1_0, full-width / Arabic-Indic / Devanagari digits, NBSP / thin-space '
         'padding, inf, nan, 0x10, and the Excel-numeric " 10 ", +10, 1e1, 10.0) against 10 / "10" / "=10" / '
         '"<>10" / ">9" …: only spellings of the Excel grammar fall under the known finding.  Single-cell ranges '
-        '(scalars) with every falsy value as the aggregated cell.  Also '
+        '(scalars) with every falsy value as the aggregated cell.  Non-ASCII text (ß, final sigma, ſ, İ/ı, ǅ, ﬁ, Greek, '
+        'Cyrillic, NFC/NFD): reflexivity (`refl`: cell == criterion string under s, "=s", "<>s", one char as ?), partition '
+        'and selection over the strings whose lowering the model shares.  Also '
         'a malformed stream: unequal range sizes, blank / logical / error-value '
         'criteria, bare "<" ">" "<=" ">=", scalar range arguments.  A case is non-trivial when a criteria range has '
         '>= 2 cells of >= 2 kinds or it is a one-cell case of the deterministic core; distinct = distinct case dict.')
@@ -65,8 +67,11 @@ ASSUMPTIONS = [
     'ranges are rectangular (every Excel range is); the protocol can only express rectangular arrays',
     'numbers are dyadic rationals of moderate size so Python float sums are exact; AVERAGE…’s final division is '
     'compared with a relative tolerance of 1e-12',
-    'text is ASCII (plus a few Latin-1 letters) without line breaks in criteria: Python’s full Unicode str.lower() and '
-    'the behaviour of OPERATORS_RE on line breaks are outside the modelled domain',
+    'case-insensitive = Python str.lower() on both sides (the code); the model maps ASCII and Latin-1 letters only.  '
+    'Non-ASCII text (ß, ς/σ, ſ, İ/ı, ǅ, ﬁ, Greek, Cyrillic, NFC/NFD) is generated (a) as a cell EQUAL to the criterion '
+    'string (reflexivity, "<>" complement, one character replaced by ? — needs no model of case folding) and (b) in '
+    'ranges only for strings whose str.lower() is the model’s lower (so Σ vs σ, ǅ vs ǆ, İ vs i are never compared '
+    'across case: that comparison is assumed to be str.lower() and is not checked); no line breaks in criteria',
     'numeric text is read by Ops.parseNum? (C10): the generator only produces texts on which it agrees with '
     'Python float()/int() (no "inf", "nan", "1_0", Unicode digits)',
     'criteria are scalars of the grammar in the property’s quantifier; logical, blank, error-value and array criteria '
@@ -82,7 +87,7 @@ XL = {f: f.upper() for f in FNS}
 IFS_OF = {'countif': 'countifs', 'sumif': 'sumifs', 'averageif': 'averageifs'}
 REQUIRED_BUCKETS = ['core:' + k for k in ('number', 'opnumber', 'text', 'optext', 'wild', 'empty')] + \
                    ['call:' + f for f in FNS] + ['partition', 'commute', 'ifs1', 'avg', 'malformed:size',
-                                                 'malformed:criteria', 'near', 'seq', 'prelude', 'exotic', 'single']
+                                                 'malformed:criteria', 'near', 'seq', 'prelude', 'exotic', 'single', 'unicode']
 
 S = core.enc_text
 OPS = ('', '=', '<>', '<', '<=', '>', '>=')
@@ -124,6 +129,32 @@ EXOTIC_CELLS = ['10', ' 10 ', '+10', '1e1', '1E1', '10.0', '010', '\t10\n', '1_0
                 '\u00a010', '10\u00a0', '\u200910\u2009', '\u300010', 'inf', '-inf', 'nan', 'Infinity', '0x10', '0b10',
                 '10 000', '1,0', '1__0', '_10', '10_', '\u0967\u0966', '1e', 'e1', '1_0.0', '1e1_0']
 EXOTIC_CRIT_VALUES = [10, 1e10, 0]
+
+
+# non-ASCII text where lower() and casefold() differ or case mapping is irregular
+UNI = ['straße', 'STRASSE', 'Straße', 'strasse', 'ß', '\u1e9e', 'ς', 'σ', 'Σ', 'σίσυφος', 'ΣΊΣΥΦΟΣ', 'ὈΔΥΣΣΕΎΣ', 'ſ',
+       'ſtop', 'stop', 'İstanbul', 'ıstanbul', 'istanbul', 'ǅ', 'ǆ', 'Ǆ', 'ﬁ', 'ﬁn', 'fin', 'привет', 'ПРИВЕТ', 'é',
+       'e\u0301', 'É', 'E\u0301', 'ǰ', 'ŉ', '\u212a', 'k', '\u212b', 'å', 'ÿ', 'Ÿ', 'µ', 'μ']
+
+
+def _model_lower(t):
+    """Ops.lower of the Lean model: ASCII and Latin-1 letters"""
+    return ''.join(chr(ord(ch) + 32) if (65 <= ord(ch) <= 90 or (192 <= ord(ch) <= 222 and ord(ch) != 215)) else ch
+                   for ch in t)
+
+
+# strings on which Python's lower and the model's lower agree: only these meet OTHER strings inside a range
+UNI_AGREE = [t for t in UNI if t.lower() == _model_lower(t)]
+
+
+def _one_char_pattern(t):
+    """t with one character replaced by `?` such that, under str.lower(), the pattern still describes t (case mapping
+    can depend on context or change the length: final sigma, İ)"""
+    for k in range(len(t)):
+        pat = t[:k] + '?' + t[k + 1:]
+        if wild_match(pat.lower(), t.lower()):
+            return pat
+    return None
 
 
 def _criteria():
@@ -364,6 +395,14 @@ def raw_queries(c):
     if k == 'avg':
         args = c['args']
         return [('averageifs', args), ('sumifs', args), ('countifs', args[1:])]
+    if k == 'refl':
+        t = core.dec(c['s'])
+        cell = rng(1, 1, [c['s']])
+        qs = [('countif', [cell, c['s']]), ('countif', [cell, S('=' + t)]), ('countif', [cell, S('<>' + t)])]
+        pat = _one_char_pattern(t)
+        if pat is not None:
+            qs.append(('countif', [cell, S(pat)]))
+        return qs
     raise ValueError(k)
 
 
@@ -687,6 +726,16 @@ def _oracles(results):
                 yield c, (f'{where} (via {via}), after {before} the call {show_call(*steps[bad])} gives '
                           f'{core.show(outs[bad])}; as the first call of a fresh process it gives {core.show(first)}')
                 continue
+        if c['k'] == 'refl':
+            # a cell EQUAL to the criterion string satisfies s and "=s", not "<>s", and s with one character as `?`
+            want = ['n:1/1', 'n:1/1', 'n:0/1', 'n:1/1'][:len(outs)]
+            if outs != want:
+                t = core.dec(c['s'])
+                names = [repr(t), repr('=' + t), repr('<>' + t), repr(_one_char_pattern(t))]
+                k = next(i for i, (o, w) in enumerate(zip(outs, want)) if o != w)
+                yield c, (f'a cell holding {t!r} counted by COUNTIF with criterion {names[k]}: {core.show(outs[k])}, '
+                          f'expected {core.show(want[k])} (the cell IS the criterion string)')
+            continue
         if not governed(c):
             continue
         # never fails: a number or an Excel error value (MAXIFS/MINIFS may hand back a logical of the range)
@@ -815,7 +864,7 @@ def _kinds(a):
 
 
 def nontrivial(c):
-    if c.get('core') or c.get('near') or c.get('exotic') or c.get('single') or c['k'] == 'seq' or 'prelude' in c:
+    if c.get('core') or c.get('near') or c.get('exotic') or c.get('single') or c.get('uni') or c['k'] == 'seq' or 'prelude' in c:
         return True
     for fn, args in queries(c)[:1]:
         _, slots = pair_slots(fn, len(args))
@@ -837,6 +886,8 @@ def bucket(c):
         return 'exotic'
     if c.get('single'):
         return 'single'
+    if c.get('uni'):
+        return 'unicode'
     if c.get('core'):
         return 'core:' + c['core']
     if c.get('mal'):
@@ -959,6 +1010,20 @@ def cases(tier, rng_):
                 yield {'k': 'call', 'fn': fn, 'args': [SEQ_RANGE, b], 'prelude': [fn, [SEQ_RANGE, a]], **via}
             yield {'k': 'call', 'fn': 'sumifs', 'args': [SEQ_VALS, SEQ_RANGE, b],
                    'prelude': ['maxifs', [SEQ_VALS, SEQ_RANGE, a]], **via}
+    # ---- non-ASCII text: reflexivity for every string; ranges over the strings whose lowering the model shares
+    for t in UNI:
+        for via in ({'via': 'l'}, {'via': 'f', 'lit': False}):
+            yield {'k': 'refl', 's': S(t), 'uni': 1, **via}
+    ucol = rng(len(UNI_AGREE), 1, [S(t) for t in UNI_AGREE])
+    uvals = rng(len(UNI_AGREE), 1, [f'n:{2 ** k}/1' for k in range(len(UNI_AGREE))])
+    for t in UNI_AGREE:
+        pat = _one_char_pattern(t)
+        for via in ({'via': 'l'}, {'via': 'f', 'lit': False}):
+            yield {'k': 'partition', 'args': [ucol, S(t)], 'uni': 1, **via}
+            for crit in [S(t), S('<>' + t)] + ([S(pat), S('<>' + pat)] if pat else []):
+                yield {'k': 'call', 'fn': 'countif', 'args': [ucol, crit], 'uni': 1, **via}
+                yield {'k': 'call', 'fn': 'sumifs', 'args': [uvals, ucol, crit], 'uni': 1, **via}
+        yield {'k': 'ifs1', 'fn': 'countif', 'args': [ucol, S(t)], 'via': 'l', 'uni': 1}
     # ---- single-cell ranges: a one-cell range reaches the functions as a SCALAR; every falsy / odd value as the
     #      aggregated cell (0, 0.0, FALSE, "", blank, an error value, text) with criteria it is and is not selected by
     for a in ('n:3/1', 'n:0/1', S('a'), 'b:1', 'z'):
